@@ -1092,7 +1092,8 @@ func (st *State) decide(cond ssa.Value) Boolv {
 
 // assume refines the state with the outcome of an undecided condition.
 func (st *State) assume(cond ssa.Value, outcome bool) {
-	st.V[cond] = Val{B: b2(outcome)}
+	// (a label a rule attached to the condition's value survives the assumption)
+	st.V[cond] = Val{B: b2(outcome), Sym: st.V[cond].Sym}
 	if key, neg, ok := st.cmpKey(cond); ok {
 		st.V[key] = Val{B: b2(outcome != neg)}
 	}
